@@ -393,9 +393,15 @@ func (b *Broker) RegisterPipeline(def Pipeline, opt ...Option) error {
 		registrationPolicy: opts.withPipelineRegistrationPolicy,
 	}
 
+	// If we're overwriting a pipeline, the nodes of the pipeline being replaced
+	// are no longer referenced by it.
+	if replaced, err := g.roots.Nodes(def.PipelineID); err == nil {
+		b.releaseNodes(replaced)
+	}
+
 	// Store the pipeline and then update the reference count of the nodes in that pipeline.
 	g.roots.Store(def.PipelineID, pipelineReg)
-	for _, id := range def.NodeIDs {
+	for id := range root.flatten() {
 		nodeUsage, ok := b.nodes[id]
 		// We can be optimistic about this as we would have already errored above.
 		if ok {
@@ -423,8 +429,21 @@ func (b *Broker) RemovePipeline(t EventType, id PipelineID) error {
 		return fmt.Errorf("no graph for EventType %s", t)
 	}
 
+	if nodes, err := g.roots.Nodes(id); err == nil {
+		b.releaseNodes(nodes)
+	}
 	g.roots.Delete(id)
 	return nil
+}
+
+// releaseNodes decrements the reference count of the nodes of a pipeline that is
+// no longer registered. This function assumes that the caller holds a lock.
+func (b *Broker) releaseNodes(ids []NodeID) {
+	for _, id := range ids {
+		if nodeUsage, ok := b.nodes[id]; ok && nodeUsage.referenceCount > 0 {
+			nodeUsage.referenceCount--
+		}
+	}
 }
 
 // RemovePipelineAndNodes will attempt to remove all nodes referenced by the pipeline.
